@@ -137,6 +137,12 @@ func c06Histories() []c06History {
 			bad := withSignals(rig.ExecSpec{RunID: t + "-bad", StepID: "sig", Input: map[string]any{"nonce": t + "-bad", "n": make(chan int)}}, 1)
 			return [][]rig.ExecSpec{{a, dup, dupOpen, bad}}
 		}, false, false},
+		{"late-writes: the same run ID again, quickly", func(t string) [][]rig.ExecSpec {
+			// the client's writes return late, so a run can have its result before its own Execute has got as far as
+			// waiting for it; a second call with that run ID arrives in between (it is refused: the ID is in use
+			// until the first call has collected its result)
+			return [][]rig.ExecSpec{{ex(t, "a", "echo", nil), ex(t, "a", "echo2", nil)}, {ex(t, "a", "echo", nil)}}
+		}, false, false},
 		{"nan-and-inf-inputs-then-close", func(t string) [][]rig.ExecSpec {
 			return [][]rig.ExecSpec{{ex(t, "a", "echo", map[string]any{"payload": 0.5})}, {ex(t, "b", "echo", map[string]any{"payload": math.NaN()})}, {ex(t, "c", "echo", map[string]any{"payload": []any{math.Inf(1), math.Inf(-1)}})}}
 		}, false, false},
@@ -205,7 +211,7 @@ func c06Histories() []c06History {
 // c06Judge turns a session result into violations of C06.
 func c06Judge(c *wk.Ctx, prop string, h string, spec rig.SessionSpec, res *rig.SessionResult, points map[int]yieldPoint) bool {
 	wit := map[string]any{"history": h, "schedule": spec.Sched, "schedule_text": describePause(points, spec.Sched), "lifo": spec.Lifo, "pauses_first": spec.PausesFirst,
-		"transport": fmt.Sprintf("c2s=%s s2c=%s", spec.C2S, spec.S2C), "chunk_seed": spec.ChunkSeed, "slow_client_reads": spec.SlowClientReads, "close_after_client_messages": spec.CloseAfterItems}
+		"transport": fmt.Sprintf("c2s=%s s2c=%s", spec.C2S, spec.S2C), "chunk_seed": spec.ChunkSeed, "slow_client_reads": spec.SlowClientReads, "close_after_client_messages": spec.CloseAfterItems, "client_writes_return_late": spec.LateClientWrites}
 	switch res.Monitor.Outcome {
 	case "inconclusive":
 		c.Inconclusive(fmt.Sprintf("history=%s schedule=%v: watchdog fired; still running: %v", h, spec.Sched, res.Monitor.Verdict.RunningDescr) + snapSummary(res.Monitor.Snap))
@@ -325,7 +331,8 @@ func runC06(c *wk.Ctx) {
 			if h.rendezvous {
 				bm.c2s, bm.s2c = rig.ModeSync, rig.ModeSync
 			}
-			res := rig.RunSession(rig.SessionSpec{C2S: bm.c2s, S2C: bm.s2c, ChunkSeed: uint64(rep + 1), Groups: h.groups(fmt.Sprintf("base%d", rep)), CloseOverlap: h.closeOverlap})
+			res := rig.RunSession(rig.SessionSpec{C2S: bm.c2s, S2C: bm.s2c, ChunkSeed: uint64(rep + 1), Groups: h.groups(fmt.Sprintf("base%d", rep)), CloseOverlap: h.closeOverlap,
+				LateClientWrites: strings.HasPrefix(h.name, "late-writes:")})
 			if res.Monitor.Outcome != "done" {
 				// the unperturbed history itself does not complete: judged as a case below (schedule empty)
 				continue
@@ -500,6 +507,7 @@ func runC06(c *wk.Ctx) {
 			c.Count("rendezvous_sessions_with_a_pause")
 		}
 		spec := rig.SessionSpec{C2S: m.c2s, S2C: m.s2c, ChunkSeed: r.U64(), Groups: h.groups(fmt.Sprintf("c%d", idx)), Sched: sched, Lifo: r.Bool(), CloseOverlap: h.closeOverlap, PausesFirst: r.Bool()}
+		spec.LateClientWrites = strings.HasPrefix(h.name, "late-writes:")
 		if cr.kind == 3 && cr.k >= 12 {
 			// the client's read loop as the slowest stage: the plugin's replies queue up
 			spec.SlowClientReads = []int{1000, 4000, 16000}[(cr.k/3)%3]
